@@ -366,10 +366,7 @@ def families(n, rng):
         return s + "".join(f"({min(a, b)}-{max(a, b)})" for a, b in t)
     def complete(k):
         return f"C{k}/" + "".join(f"({i}-{j})" for i in range(1, k + 1) for j in range(i + 1, k + 1))
-    if n >= 100:
-        kn = min(n, 300)
-    else:
-        kn = min(n, 40)
+    kn = min(n, 90)          # complete graphs: the number of bonds, not of atoms, is what grows
     return {"chain": chain(n), "ring": ring(n), "comb": comb(n // 2), "ladder": ladder(n // 2), "star": star(n), "isolated": isolated(n),
             "waters": waters(n // 3), "ions": ions(n // 2), "peptide": peptide(n // 4), "complete": complete(kn)}
 
@@ -472,9 +469,9 @@ def c15(out, tier, rng):
                 S.ev.append({"op": "completed", "call": "pipeline", "family": name, "n": need})
     out.extra["stack_depth_probe"] = probe
     # (3) real sizes
-    real = [("chain", 700), ("ring", 1500), ("waters", 1500), ("isolated", 1500), ("ions", 1200), ("comb", 500), ("complete", 270), ("star", 700)] if tier == "quick" else \
+    real = [("chain", 700), ("ring", 1500), ("waters", 1500), ("isolated", 1500), ("ions", 1200), ("comb", 500), ("complete", 90), ("star", 700)] if tier == "quick" else \
            [("chain", 2200), ("chain", 4000), ("ring", 2400), ("ring", 5000), ("comb", 2200), ("ladder", 2000), ("peptide", 2400), ("star", 3000),
-            ("waters", 4500), ("isolated", 5000), ("ions", 4000), ("complete", 300)]
+            ("waters", 4500), ("isolated", 5000), ("ions", 4000), ("complete", 90), ("star", 3000)]
     for name, n in real:
         t0 = time.time()
         o, d = run_pipeline_depth(families(n, rng)[name])
